@@ -20,7 +20,7 @@ import (
 
 func TestMain(m *testing.M) {
 	kit.Main(m, "C14", "exploration",
-		"2-3 processes (own SessionFactory, own caches, rapid-drawn cache policies; shared expiry / interval / precision) race 1-2 encrypts each on one or two partitions from start states {cold, SK only, SK+IK expired, IK revoked, SK revoked, SK revoked but not yet noticed, IK / SK revoked with the replacement falling into the revoked key's own creation window (its insert is refused as a duplicate)}, over the harness-owned table or (2/3 of the scenarios) a REAL metastore implementation behind the scheduling wrapper - MemoryMetastore, SQLMetastore (mysql / postgres / oracle dialects over the interpreting database/sql fake), DynamoDB v1 / v2 over the expression-evaluating fake; a shadow of every acknowledged insert detects a second acknowledged insert of the same (id, created) and any difference between the raw database rows and what was acknowledged, with caches cold or pre-warmed before the state change, at a fixed virtual time so truncated creation stamps collide. "+
+		"2-3 processes (own SessionFactory, own caches, rapid-drawn cache policies; shared expiry / interval / precision) race 1-2 encrypts each on one or two partitions from start states {cold, SK only, SK+IK expired, IK revoked, SK revoked, SK revoked but not yet noticed, IK / SK revoked with the replacement falling into the revoked key's own creation window (its insert is refused as a duplicate)}, over the harness-owned table or (2/3 of the scenarios) a REAL metastore implementation behind the scheduling wrapper - MemoryMetastore, SQLMetastore (mysql / postgres / oracle dialects over the interpreting database/sql fake), DynamoDB v1 / v2 over the expression-evaluating fake; in a quarter of the scenarios one process's master-key service is slow (one creation-stamp tick passes while it wraps a new system key); a shadow of every acknowledged insert detects a second acknowledged insert of the same (id, created) and any difference between the raw database rows and what was acknowledged, with caches cold or pre-warmed before the state change, at a fixed virtual time so truncated creation stamps collide. "+
 			"Each process blocks in its own metastore wrapper before every Load / LoadLatest / Store until a scheduler grants it; between grants exactly one process runs, so a schedule is a sequence of process choices and replays deterministically. "+
 			"Schedules are ENUMERATED by stateless depth-first search (re-run the prefix, take the next alternative): completely for 2 processes x 1 encrypt (and x 2 encrypts in the thorough tier), up to a budget otherwise, and drawn by rapid for 3 processes. "+
 			"Oracle per schedule: every encrypt returns a record; every record names an IK row and through it an SK row in the final store; the reference decryptor, a fresh process and EVERY OTHER racing process with its warm caches decrypt every record; every row is byte-identical to what it was when first inserted and none disappears; "+
@@ -124,6 +124,7 @@ type scenario struct {
 	twoParts bool   // the second process works on another partition for its second encrypt
 	newPart  bool   // the race happens on a partition that has no IK yet
 	backend  string // "" = the harness-owned table; otherwise a real Metastore implementation over its fake database
+	slowWrap int    // index of the process whose master-key service is slow (time passes while a new SK is wrapped: one creation-stamp tick), -1 = none
 	fixed    *world.Fixed
 }
 
@@ -132,7 +133,7 @@ func (sc *scenario) String() string {
 	for i, p := range sc.fixed.Policies {
 		ps = append(ps, fmt.Sprintf("P%d{%s prewarm=%v encrypts=%d}", i, world.CacheClass(p), sc.prewarm[i], sc.encrypts[i]))
 	}
-	return fmt.Sprintf("metastore=%s state=%s newPartition=%v twoPartitions=%v exp=%s int=%s prec=%s %s", sc.backendName(), sc.state, sc.newPart, sc.twoParts, sc.fixed.Policies[0].ExpireKeyAfter, sc.fixed.Policies[0].RevokeCheckInterval, sc.fixed.Policies[0].CreateDatePrecision, strings.Join(ps, " "))
+	return fmt.Sprintf("metastore=%s slowKMSWrap=P%d state=%s newPartition=%v twoPartitions=%v exp=%s int=%s prec=%s %s", sc.backendName(), sc.slowWrap, sc.state, sc.newPart, sc.twoParts, sc.fixed.Policies[0].ExpireKeyAfter, sc.fixed.Policies[0].RevokeCheckInterval, sc.fixed.Policies[0].CreateDatePrecision, strings.Join(ps, " "))
 }
 
 func (sc *scenario) backendName() string {
@@ -149,6 +150,10 @@ var states = []string{"cold", "sk-only", "expired", "ik-revoked", "sk-revoked", 
 func drawScenario(t *rapid.T, nprocs int) *scenario {
 	sc := &scenario{state: rapid.SampledFrom(states).Draw(t, "state"), twoParts: rapid.IntRange(0, 3).Draw(t, "twoParts") == 0}
 	sc.backend = rapid.SampledFrom(backends).Draw(t, "metastore")
+	sc.slowWrap = -1
+	if rapid.IntRange(0, 3).Draw(t, "slowWrap") == 0 {
+		sc.slowWrap = rapid.IntRange(0, nprocs-1).Draw(t, "slowProc")
+	}
 	exp := rapid.SampledFrom([]time.Duration{2 * time.Minute, time.Hour}).Draw(t, "expire")
 	iv := rapid.SampledFrom([]time.Duration{time.Second, 10 * time.Second, time.Hour}).Draw(t, "interval")
 	prec := rapid.SampledFrom([]time.Duration{time.Second, time.Minute}).Draw(t, "precision")
@@ -281,6 +286,16 @@ func run(t *rapid.T, sc *scenario, prefix []int, pick func(n int) int) *result {
 	}
 	g := newGate(actors)
 	w.Store.Gate = g.wait
+	if sc.slowWrap >= 0 {
+		slow := w.Procs[sc.slowWrap].Name
+		w.Log.Plan = func(idx int, c *kit.Call) kit.FaultKind {
+			if c.Target == "kms" && c.Op == "EncryptKey" && c.Actor == slow {
+				return kit.FaultSlow
+			}
+			return kit.NoFault
+		}
+		defer func() { w.Log.Plan = nil }()
+	}
 	callsBefore := w.Log.Len()
 	type out struct {
 		proc int
@@ -341,6 +356,7 @@ func run(t *rapid.T, sc *scenario, prefix []int, pick func(n int) int) *result {
 	g.active = false
 	g.mu.Unlock()
 	w.Store.Gate = nil
+	w.Log.Plan = nil
 	close(outs)
 	var recs []*world.Rec
 	for o := range outs {
